@@ -216,6 +216,29 @@ Proof.
   repeat split.
 Qed.
 
+(* deterministic channel keys are a function of what unlock restores *)
+Lemma secrets_channel_view l1 l2 k : map secrets l1 = map secrets l2 ->
+  map (fun a => channel_view P a k) l1 = map (fun a => channel_view P a k) l2.
+Proof.
+  revert l2. induction l1 as [|a l1 IH]; intros [|b l2] H; try discriminate H; [reflexivity|].
+  cbn [map] in *. unfold secrets at 1 3 in H. injection H as _ Hp _ He Hr. rewrite (IH _ Hr). f_equal.
+  unfold channel_view. rewrite Hp, He. reflexivity.
+Qed.
+
+Theorem channel_keys_restored : forall w pw rnd k,
+  wf_wallet w -> w_pw w = Some pw -> Forall len16 rnd ->
+  exists w1 w2,
+    lock P rnd w = Ok w1 /\ Forall (fun b => channel_view P b k = None) (w_accounts w1)
+    /\ unlock P pw w1 = (UTrue, w2)
+    /\ map (fun a => channel_view P a k) (w_accounts w2) = map (fun a => channel_view P a k) (w_accounts w).
+Proof.
+  intros w pw rnd k Hwf Hpw Hr.
+  destruct (unlock_restores w pw rnd Hwf Hpw Hr) as (w1 & w2 & Hl & Hall & Hu & Hs & _).
+  exists w1, w2. split; [exact Hl|]. split.
+  - eapply Forall_impl; [|exact Hall]. intros b [He _]. unfold channel_view. rewrite He. reflexivity.
+  - split; [exact Hu|]. apply secrets_channel_view. exact Hs.
+Qed.
+
 (* ---------------- a refused unlock ---------------- *)
 Lemma account_decrypt_refused pw a o a' : account_decrypt P pw a = (o, a') -> o <> DTrue ->
   strip_iv a' = strip_iv a /\ a_encrypted a' = a_encrypted a.
@@ -855,6 +878,7 @@ Proof.
   - destruct (nth_error (w_accounts (m_w st)) i); [|exact Hc]. destruct (a_encrypted a); [|exact Hc].
     destruct (account_decrypt P pw a). exact Hc.
   - exact Hc.
+  - destruct (nth_error (w_accounts (m_w st)) i); exact Hc.
 Qed.
 
 Theorem file_always_complete : forall ops st, coherent st -> coherent (run P path umask ops st).
@@ -885,6 +909,7 @@ Definition toy : prims := mkPrims
   (fun sd => sd) (fun pub => skipn 4 pub)      (* toy: an extended public key is "xpub" ++ the seed it comes from *)
   (fun sd => negb (bytes_eqb sd toy_bad_seed))
   (fun x => XOk x)
+  (fun x k => x ++ [byte_of_N 47; byte_of_N 50; byte_of_N 47; byte_of_N (48 + k)])     (* toy: path text "x/2/k" *)
   (fun x => byte_of_N 34 :: x ++ [byte_of_N 34])
   (fun pw salt _ _ _ => pw ++ salt)
   (fun x => x) (fun x => ZOk x).
